@@ -20,7 +20,14 @@ func main() {
 	dump := flag.String("dump", "", "write the model map as JSON to this file")
 	flag.Parse()
 
-	cfg, err := config.LoadConfig(*cfgFile)
+	var cfg *config.Config
+	var err error
+	if *cfgFile == "auto" {
+		// search upwards from the current directory, like the gqlgen command does
+		cfg, err = config.LoadConfigFromDefaultLocations()
+	} else {
+		cfg, err = config.LoadConfig(*cfgFile)
+	}
 	if err != nil {
 		fmt.Fprintln(os.Stderr, "GENERATE-ERROR load config:", err)
 		os.Exit(3)
